@@ -150,3 +150,58 @@ package utils
 //@   ensures typeis(result, "*base1DCode") && fresh(result)
 //@   ensures asptr(result, "*base1DCode").BitList == bars && asptr(result, "*base1DCode").kind == codeKind
 //@   ensures asptr(result, "*base1DCode").content == content && asptr(result, "*base1DCode").color == color
+
+// ---------------------------------------------------------------- Galois fields (C17)
+
+// what NewGaloisField establishes for every field the library constructs (table lemmas T1-T4,
+// checked exhaustively on the constructed tables) and what the arithmetic needs
+//@ define gfOK(gf *GaloisField) bool = gf != nil && (gf.Size == 16 || gf.Size == 64 || gf.Size == 256 || gf.Size == 1024 || gf.Size == 4096) && 0 <= gf.Base && gf.Base <= 1
+//@    && len(gf.ALogTbl) == gf.Size && len(gf.LogTbl) == gf.Size && gf.ALogTbl.off == 0 && gf.LogTbl.off == 0
+//@    && (forall k int :: 0 <= k && k < gf.Size ==> 1 <= gf.ALogTbl[k] && gf.ALogTbl[k] < gf.Size)
+//@    && gf.ALogTbl[0] == 1 && gf.ALogTbl[gf.Size-1] == 1
+//@    && (forall a int :: 1 <= a && a < gf.Size ==> 1 <= gf.LogTbl[a] && gf.LogTbl[a] <= gf.Size-1 && gf.ALogTbl[gf.LogTbl[a]] == a)
+//@    && (forall k int :: 1 <= k && k <= gf.Size-1 ==> gf.LogTbl[gf.ALogTbl[k]] == k)
+
+//@ func (*GaloisField).AddOrSub
+//@   pure
+//@   ensures result == (a ^ b)
+
+//@ func (*GaloisField).Multiply
+//@   attr split gf.Size 16 64 256 1024 4096
+//@   requires gfOK(gf) && 0 <= a && a < gf.Size && 0 <= b && b < gf.Size
+//@   ensures 0 <= result && result < gf.Size
+//@   ensures (a == 0 || b == 0) ==> result == 0
+//@   ensures (a != 0 && b != 0) ==> result != 0 && result == gf.ALogTbl[(gf.LogTbl[a] + gf.LogTbl[b]) % (gf.Size-1)]
+
+//@ func (*GaloisField).Divide
+//@   attr split gf.Size 16 64 256 1024 4096
+//@   requires gfOK(gf) && 0 <= a && a < gf.Size && 1 <= b && b < gf.Size
+//@   ensures 0 <= result && result < gf.Size
+//@   ensures a == 0 ==> result == 0
+//@   ensures a != 0 ==> result != 0 && result == gf.ALogTbl[(gf.LogTbl[a] - gf.LogTbl[b] + (gf.Size-1)) % (gf.Size-1)]
+
+//@ func (*GaloisField).Invers
+//@   attr split gf.Size 16 64 256 1024 4096
+//@   requires gfOK(gf) && 1 <= num && num < gf.Size
+//@   ensures 1 <= result && result < gf.Size && result == gf.ALogTbl[(gf.Size-1) - gf.LogTbl[num]]
+
+//@ func lemmaMulComm
+//@   attr split gf.Size 16 64 256 1024 4096
+//@   requires gfOK(gf) && 0 <= a && a < gf.Size && 0 <= b && b < gf.Size
+//@   ensures result0 == result1
+//@ func lemmaMulAssoc
+//@   attr split gf.Size 16 64 256 1024 4096
+//@   requires gfOK(gf) && 0 <= a && a < gf.Size && 0 <= b && b < gf.Size && 0 <= c && c < gf.Size
+//@   ensures result0 == result1
+//@ func lemmaInverse
+//@   attr split gf.Size 16 64 256 1024 4096
+//@   requires gfOK(gf) && 1 <= a && a < gf.Size
+//@   ensures result == 1
+//@ func lemmaDivUndoesMul
+//@   attr split gf.Size 16 64 256 1024 4096
+//@   requires gfOK(gf) && 0 <= a && a < gf.Size && 1 <= b && b < gf.Size
+//@   ensures result == a
+//@ func lemmaDivIsMulInverse
+//@   attr split gf.Size 16 64 256 1024 4096
+//@   requires gfOK(gf) && 0 <= a && a < gf.Size && 1 <= b && b < gf.Size
+//@   ensures result0 == result1
